@@ -230,12 +230,16 @@ func (p *Program) Resolve(lines []Line, opt ResolveOpt, inherited map[string]str
 	for k, v := range inherited {
 		r.Defs[k] = v
 	}
+	// a name defined in the file itself means what the file says (its first definition); the table handed
+	// down (the include file's, for exclude files) only supplies the names the file does not define
+	own := map[string]bool{}
 	for _, l := range lines {
 		switch l.K {
 		case KBlank, KComment:
 		case KDefine:
-			if _, ok := r.Defs[l.Name]; !ok {
+			if !own[l.Name] {
 				r.Defs[l.Name] = l.T
+				own[l.Name] = true
 			}
 		case KFlags:
 			for _, f := range l.T {
